@@ -14,6 +14,8 @@ THEOREMS += ['Flowdyn.C12.minmod_homogeneous', 'Flowdyn.C12.superbee_homogeneous
              'Flowdyn.C12.vanalbada_self_bound', 'Flowdyn.C12.vanleer_self_bound',
              'Flowdyn.C12.vanalbada_homogeneous_bound', 'Flowdyn.C12.vanleer_homogeneous_bound',
              'Flowdyn.C12.generated_constants_admissible', 'Flowdyn.C12.generated_threshold_below_1e8']
+THEOREMS += ['Flowdyn.GenLim.%s_eq' % l for l in ('minmod', 'superbee', 'vanalbada', 'vanleer')]
+AUDIT_IMPORTS = ['Flowdyn.Props.C12gen']
 PARTIAL = {}
 LEVEL_NOTE = ("theorems over any linearly ordered field for the four limiter models with the regularisation literals "
               "extracted from the source; binary64 overflow/underflow is outside the theorems and is seen by L-lim and the sweep")
